@@ -45,6 +45,7 @@ func init() {
 			c09ExplicitExpiryWins(r)
 			c09SanitizeKeepsVersions(r)
 			c09RelativeExpiryFromNow(r)
+			c02ReplicateBeforeAck(r)
 		},
 	})
 }
@@ -331,15 +332,28 @@ func c09TTLExhaustive(r *core.Run) {
 			if !isSt || core.LastField(st.Addr) != "HasPX" {
 				return
 			}
+			extra := false
+			hasTTL := false
 			for _, cd := range core.Conditions(in.Block()) {
 				if bin, isBin := cd.Val.(*ssa.BinOp); isBin && bin.Op == token.NEQ && cd.Truth {
 					if _, isEx := bin.X.(*ssa.Extract); isEx {
-						ok = true
+						hasTTL = true
+						continue
 					}
 				}
+				if _, _, isErr := isErrNilTest(cd); isErr {
+					continue
+				}
+				// a test of the remaining time makes the carry-over conditional
+				if mentionsTime(cd.Val, 0) {
+					extra = true
+				}
+			}
+			if hasTTL && !extra {
+				ok = true
 			}
 		})
-		r.Check(ok, "ttl-exhaustive", fnAtomicIncrDecr+" keeps the ttl", site(r, a.SSA.Pos()), "the remaining ttl is re-armed when the loaded ttl != 0", "Incr/Decr drop the key's expiry")
+		r.Check(ok, "ttl-exhaustive", fnAtomicIncrDecr+" keeps the ttl", site(r, a.SSA.Pos()), "the remaining ttl is re-armed whenever the loaded ttl != 0, under no further condition", "Incr/Decr can drop the key's expiry (the carry-over is missing or depends on something besides 'the key has a ttl', e.g. on the remaining time being positive: an increment that straddles the deadline writes the counter back with no expiry at all)")
 	}
 }
 
@@ -664,4 +678,35 @@ func consultsExpiry(p *core.Prog, f *ssa.Function, start *ssa.BasicBlock, isExp 
 		}
 	}
 	return !bad
+}
+
+// mentionsTime: the value is computed from the clock (a call into package time).
+func mentionsTime(v ssa.Value, depth int) bool {
+	if depth > 6 || v == nil {
+		return false
+	}
+	switch x := v.(type) {
+	case *ssa.BinOp:
+		return mentionsTime(x.X, depth+1) || mentionsTime(x.Y, depth+1)
+	case *ssa.UnOp:
+		return mentionsTime(x.X, depth+1)
+	case *ssa.Convert:
+		return mentionsTime(x.X, depth+1)
+	case *ssa.Phi:
+		for _, e := range x.Edges {
+			if mentionsTime(e, depth+1) {
+				return true
+			}
+		}
+	case *ssa.Call:
+		if o := core.CalleeObj(x); o != nil && o.Pkg() != nil && o.Pkg().Path() == "time" {
+			return true
+		}
+		for _, a := range x.Call.Args {
+			if mentionsTime(a, depth+1) {
+				return true
+			}
+		}
+	}
+	return false
 }
